@@ -5,6 +5,8 @@
 -/
 import Scc.PMoves.ProofsBackends
 
+set_option autoImplicit false
+
 namespace Scc.PMoves.A64
 
 def rdN {V : Type} (m : MState V) (x : Nat) : V := m.rd (decode x)
@@ -166,14 +168,14 @@ theorem sim_step {V : Type} (f : Bool) (op : AOp) (a : (Nat → V) × V) (m : MS
 
 /-- T2 for AArch64, in terms of location codes. -/
 theorem parallelMoves_correct_codes {V : Type} (pm : PMap) (hs : Sorted pm) (hf : Functional pm)
-    (hu : ∀ x ∈ allNodes pm, usable x = true) :
+    (hu : ∀ s t, Edge pm s t → usable s = true ∧ usable t = true) :
     ∃ code, parallelMovesA64 pm = .ok code ∧ ∀ m : MState V,
       (∀ s t, Edge pm s t → rdN (runCode code m) t = rdN m s) ∧
       (∀ x, usable x = true → (∀ s, ¬ Edge pm s x) → rdN (runCode code m) x = rdN m x) := by
   obtain ⟨ops, hops, hfin⟩ := backend_correct (S := MState V) rdN okN cell bad lower exec
     containsSpillEdge (fun _ _ _ _ _ _ h => h) sim_step
     (fun msg m => by simp [lower, runWith, exec]) pm hs.keysNodup hs.targetsNodup hf
-    (fun x hx => (okN_iff_usable x).mpr (hu x hx))
+    (fun s t e => ⟨(okN_iff_usable s).mpr (hu s t e).1, (okN_iff_usable t).mpr (hu s t e).2⟩)
   refine ⟨lowerAll ops, by simp [parallelMovesA64, hops], ?_⟩
   intro m
   obtain ⟨h1, h2⟩ := hfin m
@@ -235,7 +237,7 @@ theorem sim_step {V : Type} (f : Bool) (op : AOp) (a : (Nat → V) × V) (m : MS
 
 /-- T2 for RV64. -/
 theorem parallelMoves_correct_codes {V : Type} (pm : PMap) (hs : Sorted pm) (hf : Functional pm)
-    (hu : ∀ x ∈ allNodes pm, usable x = true) :
+    (hu : ∀ s t, Edge pm s t → usable s = true ∧ usable t = true) :
     ∃ code, parallelMovesRV64 pm = .ok code ∧ ∀ m : MState V,
       (∀ s t, Edge pm s t → (runCode code m).regs t = m.regs s) ∧
       (∀ x, usable x = true → (∀ s, ¬ Edge pm s x) → (runCode code m).regs x = m.regs x) := by
@@ -243,7 +245,7 @@ theorem parallelMoves_correct_codes {V : Type} (pm : PMap) (hs : Sorted pm) (hf 
   obtain ⟨ops, hops, hfin⟩ := backend_correct (S := MState V) rdN okN cell bad lower exec
     containsSpillEdge (fun _ _ _ _ _ _ h => h) sim_step
     (fun msg m => by simp [lower, runWith, exec]) pm hs.keysNodup hs.targetsNodup hf
-    (fun x hx => (hou x).mpr (hu x hx))
+    (fun s t e => ⟨(hou s).mpr (hu s t e).1, (hou t).mpr (hu s t e).2⟩)
   refine ⟨lowerAll ops, by simp [parallelMovesRV64, hops], ?_⟩
   intro m
   obtain ⟨h1, h2⟩ := hfin m
